@@ -73,7 +73,19 @@ FileSpace(kind, rich) ==
 BadKinds == {"unknown_key", "wrong_type", "nested_overrides", "module_at_top",
              "override_without_module", "recursive", "missing_file", "overrides_not_list",
              "bool_for_int", "disable_all_not_bool",
-             "wrong_elem_type", "extend_not_string", "override_not_table", "module_not_string"}
+             "wrong_elem_type", "extend_not_string", "override_not_table", "module_not_string",
+             "recursive_override"}     \* the cycle is closed by an extend_config key inside an override table
+
+(* How the extend_config references of a case are SPELLED (c.spell; the files stay where they are):   *)
+(*   "same"       f2.toml                    "dot"        ./f2.toml                                  *)
+(*   "up"         ../d1/f2.toml  (the sibling-project spelling of docs/configuration.md)              *)
+(*   "abs"        /.../d1/f2.toml            "redundant"  sub/../f2.toml                             *)
+(*   "symlink"    l2.toml, a symbolic link to f2.toml                                                *)
+(* The spelling changes neither which file is meant (so every layering result is the same: acyclic   *)
+(* chains spelled in any way follow the precedence) nor whether a chain of references is a cycle     *)
+(* (so every cycle is rejected, however its edges are spelled: parse_config_file compares RESOLVED   *)
+(* paths, options.py:347-351).                                                                       *)
+AllSpells == {"same", "dot", "up", "abs", "redundant", "symlink"}
 
 FileName(i) == <<"f1", "f2", "f3">>[i]
 Tag(i, sec) == FileName(i) \o "." \o sec       \* the command line is "cmd"
@@ -472,6 +484,7 @@ CONSTANTS
     Routes,      \* subset of {"inst", "kwargs", "argv"}
     Layouts,     \* subset of {"flat", "nested"}
     Slim,        \* TRUE: every file is top + override a, extend_config first (the command-line slice)
+    Spells,      \* subset of AllSpells
     HistKinds,   \* option kinds looked up in histories ({} = no history slice)
     MaxLookups   \* length of a history
 
@@ -516,17 +529,20 @@ vars == <<case, stage, n>>
 
 Blank == [kind |-> "bool", files |-> << >>, cmd |-> "none", default |-> <<"T">>, q |-> << >>,
           bad |-> "none", badfile |-> 0, badloc |-> "top",
-          route |-> "inst", argv |-> << >>, cfgsrc |-> "arg", layout |-> "flat", lookups |-> << >>]
+          route |-> "inst", argv |-> << >>, cfgsrc |-> "arg", layout |-> "flat", lookups |-> << >>,
+          spell |-> "same"]
 
 Init == case = Blank /\ stage = "kind" /\ n = 0
 
 ChooseKind ==
     /\ stage = "kind"
-    /\ \E kind \in Kinds, m \in 1..MaxFiles, lay \in Layouts : \E d \in DefaultsOf(kind) :
+    /\ \E kind \in Kinds, m \in 1..MaxFiles, lay \in Layouts, sp \in Spells : \E d \in DefaultsOf(kind) :
+         \* a spelling other than the plain one needs a reference to spell (>= 2 files), flat layout
+         /\ (sp # "same" => m >= 2 /\ lay = "flat")
          \* the nested layout differs from the flat one only with >= 2 files; it is enumerated for the
          \* kinds whose value shows the directory and for one scalar kind (extend_config resolution)
          /\ (lay = "nested" => m >= 2 /\ kind \in PathKinds \cup {"int"})
-         /\ case' = [case EXCEPT !.kind = kind, !.default = d, !.layout = lay]
+         /\ case' = [case EXCEPT !.kind = kind, !.default = d, !.layout = lay, !.spell = sp]
          /\ n' = m
     /\ stage' = "files"
 
@@ -550,13 +566,15 @@ ChooseQuery ==
     /\ stage' = "done" /\ UNCHANGED n
 
 ChooseBad ==
-    /\ WithBad /\ stage = "files" /\ case.files = << >> /\ case.layout = "flat"
-    /\ \E b \in BadKinds, bf \in 1..n, loc \in {"top", "ova"}, r \in Routes, cm \in {"none", "v1"} :
+    /\ WithBad /\ stage = "files" /\ case.files = << >> /\ case.layout = "flat" /\ case.spell = "same"
+    /\ \E b \in BadKinds, bf \in 1..n, loc \in {"top", "ova"}, r \in Routes, cm \in {"none", "v1"}, sp \in Spells :
          /\ RouteOK(case.kind, r)
+         \* cycles (of length n closed by the last file, or a self-inclusion of an earlier file) in every spelling
+         /\ (sp # "same" => b \in {"recursive", "recursive_override"})
          /\ (r = "inst" => cm = "none")
          /\ (b = "wrong_elem_type" => case.kind \in {"list", "paths", "files"})
          /\ case' = [case EXCEPT !.files = [i \in 1..n |-> Plain(case.kind)], !.q = <<"a">>,
-                                 !.bad = b, !.badfile = bf, !.badloc = loc, !.route = r,
+                                 !.bad = b, !.badfile = bf, !.badloc = loc, !.route = r, !.spell = sp,
                                  !.cmd = IF r = "argv" THEN "none" ELSE cm,
                                  !.argv = IF r = "argv" THEN CanonArgv(case.kind, cm) ELSE << >>]
     /\ stage' = "done" /\ UNCHANGED n
